@@ -20,6 +20,7 @@ import FianoModel.Uefi.FaithfulCor
 import FianoModel.Uefi.UnfixedC04
 import FianoModel.Uefi.SampleC04
 import FianoModel.Uefi.TieC04
+import FianoModel.Uefi.CodeTie   -- T1 code-as-code tie (wp-t1x): audited as a tie module of this check
 
 namespace Fiano.Uefi.C04
 open FaithfulAux
